@@ -569,6 +569,18 @@ def rule_pass(text, log, cfgset):
                             rec("R18-guarded-match-gate", t.start, stmt_end, new_txt)
                             consumed.update(range(i, c + 1))
                             continue
+        # R19 `flag |= EXPR;` (bool accumulate; Verus rejects `|` on bools):  ->  { let shim_or = EXPR; flag = flag || shim_or; }
+        # EXPR is still evaluated unconditionally, exactly once; a non-bool `flag` no longer type-checks (exit 2, never a pass)
+        if t.text == "|=" and i >= 1 and toks[i - 1].kind == "id" and (i < 2 or toks[i - 2].text in (";", "{", "}")):
+            k = i + 1
+            while k < n and toks[k].text != ";":
+                k = groups[k] + 1 if toks[k].text in ("(", "[", "{") else k + 1
+            if k < n:
+                flag = toks[i - 1].text
+                expr = text[toks[i + 1].start:toks[k - 1].end]
+                rec("R19-bool-or-assign", toks[i - 1].start, toks[k].end, "{ let shim_or = %s; %s = %s || shim_or; }" % (expr, flag, flag))
+                consumed.update(range(i - 1, k + 1))
+                continue
         # R9 full-range slicing of a place:  &X[..] / &mut X[..]
         if t.text == "&" and i + 1 < n:
             j = i + 1
